@@ -11,5 +11,6 @@ NEXT Next
 INVARIANT TypeOK
 INVARIANT Conservation
 INVARIANT NeverTooMany
+INVARIANT NoTaskBeyondItsLargestShare
 CONSTRAINT Emit
 CONSTRAINT AtMostOneExtend
